@@ -380,6 +380,8 @@ def one_preemption_cases(base_case, run_case, max_cases=900):
     most three simulated threads are runnable in the tiny workloads used)."""
     base = json.loads(json.dumps(base_case))
     base['sched'] = {'policy': 'random', 'seed': 0, 'choices': []}
+    if base.pop('rel', None):
+        base['sched']['rel'] = 1
     res = run_case(base)
     d = res['stats']['decisions']
     cases = [base]
